@@ -1090,3 +1090,146 @@ func shortCallee(s string) string {
 }
 
 var _ = sort.Strings
+
+// ---------------------------------------------------------------------------
+// D8 decoded state is a function of the input only
+
+// RuleD8: in deserialisers, nothing stored into the receiver derives from what the receiver held before.
+func RuleD8(targets [][3]string) Rule {
+	return func(c *Ctx) {
+		c.Rule("D8", "decoders overwrite: no value stored into the receiver of a Read/decode function derives (def-use) from a load of the receiver's previous contents, so the decoded object is a function of the input bytes alone (re-using a receiver, or retrying after an I/O error, cannot change the result)")
+		n := 0
+		for _, t := range targets {
+			fn := c.P.Fn(t[0], t[1], t[2])
+			if fn == nil {
+				c.Unresolved("D8", strings.Join(t[:], "."))
+				continue
+			}
+			c.Saw(core.FnName(fn))
+			if len(fn.Params) == 0 {
+				continue
+			}
+			recv := fn.Params[0]
+			// loads of receiver memory
+			fromRecv := map[ssa.Value]bool{}
+			var derivedAddr func(v ssa.Value) bool
+			derivedAddr = func(v ssa.Value) bool {
+				switch x := v.(type) {
+				case *ssa.Parameter:
+					return x == recv
+				case *ssa.FieldAddr:
+					return derivedAddr(x.X)
+				case *ssa.IndexAddr:
+					return derivedAddr(x.X)
+				}
+				return false
+			}
+			var sources []ssa.Value
+			// a load that only reads back what this function itself stored (every path to it passes a store to
+			// the same location) is not a read of the previous contents; it is as derived as those stored values
+			storesAt := map[string][]*ssa.Store{}
+			core.AllInstrs(fn, func(i ssa.Instruction) {
+				if st, ok := i.(*ssa.Store); ok && derivedAddr(st.Addr) {
+					storesAt[core.PathOf(st.Addr)] = append(storesAt[core.PathOf(st.Addr)], st)
+				}
+			})
+			readback := map[*ssa.UnOp][]*ssa.Store{}
+			core.AllInstrs(fn, func(i ssa.Instruction) {
+				if u, ok := i.(*ssa.UnOp); ok && u.Op == token.MUL && derivedAddr(u.X) {
+					if sts := storesAt[core.PathOf(u.X)]; len(sts) > 0 {
+						cut := core.NewCuts()
+						for _, st := range sts {
+							cut.AddInstr(st)
+						}
+						if core.MustPass(fn, cut, u) {
+							readback[u] = sts
+							return
+						}
+					}
+					sources = append(sources, u)
+				}
+			})
+			// forward closure, cut at x[:0] (storage reuse with the contents dropped) and at len/cap
+			var walk func(v ssa.Value)
+			walk = func(v ssa.Value) {
+				if fromRecv[v] {
+					return
+				}
+				fromRecv[v] = true
+				for _, r := range core.Refs(v) {
+					switch x := r.(type) {
+					case *ssa.Slice:
+						if x.X == v {
+							if hi, ok := core.ConstInt(x.High); ok && hi == 0 && x.High != nil {
+								continue
+							}
+							walk(x)
+						}
+					case *ssa.Call:
+						if b, ok := x.Call.Value.(*ssa.Builtin); ok {
+							if b.Name() == "append" && len(x.Call.Args) > 0 && x.Call.Args[0] == v {
+								walk(x)
+							}
+							continue
+						}
+					case *ssa.Phi:
+						walk(x)
+					case *ssa.ChangeType:
+						walk(x)
+					case *ssa.Convert:
+						walk(x)
+					case *ssa.MakeInterface:
+						walk(x)
+					case *ssa.Store:
+						if x.Val == v {
+							if a, ok := x.Addr.(*ssa.Alloc); ok {
+								// a local holding the old contents: its loads carry them on
+								for _, rr := range core.Refs(a) {
+									if u, ok := rr.(*ssa.UnOp); ok && u.Op == token.MUL {
+										walk(u)
+									}
+								}
+							}
+						}
+					}
+				}
+			}
+			for _, s := range sources {
+				walk(s)
+			}
+			for changed := true; changed; {
+				changed = false
+				for u, sts := range readback {
+					if fromRecv[u] {
+						continue
+					}
+					for _, st := range sts {
+						if fromRecv[st.Val] {
+							walk(u)
+							changed = true
+							break
+						}
+					}
+				}
+			}
+			bad := false
+			stores := 0
+			core.AllInstrs(fn, func(i ssa.Instruction) {
+				st, ok := i.(*ssa.Store)
+				if !ok || !derivedAddr(st.Addr) {
+					return
+				}
+				stores++
+				if fromRecv[st.Val] {
+					bad = true
+					c.Bad("D8", core.FnName(fn)+":store:"+core.PathOf(st.Addr), st.Pos(), fmt.Sprintf("%s stores into %s a value that derives from the receiver's previous contents: decoding into a re-used (or partially filled) receiver gives a different object than decoding into a fresh one", core.FnName(fn), core.PathOf(st.Addr)))
+				}
+			})
+			n++
+			if !bad {
+				c.OK("D8", core.FnName(fn)+":receiver-overwritten", fn.Pos(), fmt.Sprintf("%d store(s) into the receiver, none derived from %d load(s) of its previous contents", stores, len(sources)))
+			}
+		}
+		c.FloorN("D8", len(targets), n, "decoder functions")
+	}
+}
